@@ -590,8 +590,13 @@ def main():
     if harness_ok and have_model:
         shards = getattr(prop, 'SHARDS', NCPU)
         ulimit = 'ulimit -s unlimited 2>/dev/null; exec %s' % model_bin
-        run_to = 300 if tier == 'quick' else 3000      # a hang on either side shows up as output `4`, i.e. a disagreement
-        model_out = run_sharded(['sh', '-c', ulimit], lines, shards, timeout=run_to)
+        # a hang on the implementation side shows up as output `4`, i.e. a disagreement.  The model is extracted from total
+        # Gallina functions and does not depend on /repo: it always gets the long time-out, and the implementation's quick
+        # time-out scales with what the model needed on this machine under the present load (never below 300 s)
+        t_model = time.time()
+        model_out = run_sharded(['sh', '-c', ulimit], lines, shards, timeout=3000)
+        t_model = time.time() - t_model
+        run_to = max(300, int(6 * t_model)) if tier == 'quick' else 3000
         impl_out = run_sharded(hbin_path, lines, shards, timeout=run_to,
                                env=getattr(prop, 'HARNESS_ENV', None))
         for k, c in enumerate(cases):
